@@ -5,6 +5,8 @@ import "io"
 type vpIt struct {
 	key []byte
 	err bool
+	rec any
+	bad bool
 }
 
 func vpKey(s *SAM) []byte {
@@ -15,6 +17,10 @@ func vpKey(s *SAM) []byte {
 
 func vpItemOf(s *SAM, h *string, err error) vpIt {
 	it := vpIt{err: err != nil}
+	it.bad = err == nil && (s == nil) == (h == nil)
+	if s != nil && err == nil {
+		it.rec = s
+	}
 	if err == nil {
 		if h != nil {
 			it.key = append([]byte{'H'}, *h...)
@@ -58,6 +64,8 @@ func vpIterFile(api int, path string, fn func(vpIt) bool) {
 	}
 }
 
+func vpRawOK(c byte) bool { return true }
+
 func vpErrIsLast() bool { return false }
 
 func vpSampleRecs(tag string, shape int) (hdr []string, recs []*SAM) {
@@ -95,4 +103,104 @@ func vpWriteSample(tag string, shape int, w io.Writer) (error, int) {
 		}
 	}
 	return nil, total
+}
+
+var vpPFCount int
+
+// vpParseFloatStub replaces strconv.ParseFloat on symbolic text (totality
+// harnesses only): an arbitrary result.
+func vpParseFloatStub(s string, bits int) (float64, error) {
+	vpPFCount++
+	k := vpChoice("parsefloat"+vpNum(vpPFCount), 3)
+	if k == 0 {
+		return 0, vpErrRead
+	}
+	return []float64{0, 1.5}[k-1], nil
+}
+
+// vpTemplate: a SAM line whose structure is concrete and whose tokens are
+// symbolic over all byte values except TAB/LF, one region at a time:
+//   k=0: the six text fields (1 byte each)      k=1: integer fields 1 and 7 (2 bytes each)
+//   k=2: 10 fields only (too few)               k=3: one tag of 4 symbolic bytes
+//   k=4: one tag of 5 symbolic bytes            k=5: a valid tag followed by a 4-byte symbolic tag
+//   k=6: integer fields 3, 4 and 8 (1..2 bytes) k=7: one tag "X?:?:??" with 4 symbolic bytes
+func vpTemplate(k int) []byte {
+	tok := func(name string, n int) string {
+		b := vpBytes(name, n)
+		for _, c := range b {
+			vpAssume(c != '\t' && c != '\n')
+		}
+		return string(b)
+	}
+	f := []string{"q", "0", "r", "1", "2", "*", "=", "3", "4", "A", "I"}
+	switch k {
+	case 0:
+		for _, i := range []int{0, 2, 5, 6, 9, 10} {
+			f[i] = tok("f"+vpNum(i), 1)
+		}
+	case 1:
+		for _, i := range []int{1, 7} {
+			f[i] = tok("f"+vpNum(i), 2)
+		}
+	case 2:
+		f = f[:10]
+		f[0] = tok("f0", 1)
+	case 3:
+		f = append(f, tok("t0", 4))
+	case 4:
+		f = append(f, tok("t0", 5))
+	case 5:
+		f = append(f, "XA:i:1", tok("t1", 4))
+	case 6:
+		f[3], f[4], f[8] = tok("f3", 2), tok("f4", 1), tok("f8", 1)
+	case 7:
+		f = append(f, "X"+tok("ta", 1)+":"+tok("tb", 1)+":"+tok("tc", 2))
+	}
+	var out []byte
+	for i, x := range f {
+		if i > 0 {
+			out = append(out, '\t')
+		}
+		out = append(out, x...)
+	}
+	return append(out, '\n')
+}
+
+func vpFixedPoint(rec any) (bool, bool) {
+	s := rec.(*SAM)
+	for _, v := range s.Tags {
+		if _, isF := v.(float64); isF {
+			return false, false
+		}
+	}
+	for _, f := range []string{s.Qname, s.Rname, s.Cigar, s.Rnext, s.Seq, s.Qual} {
+		for i := 0; i < len(f); i++ {
+			if f[i] == '\t' || f[i] == '\n' || f[i] == '\r' {
+				return false, false
+			}
+		}
+	}
+	for name, v := range s.Tags {
+		for i := 0; i < len(name); i++ {
+			if name[i] == '\t' || name[i] == '\n' || name[i] == '\r' {
+				return false, false
+			}
+		}
+		if c, ok := v.(byte); ok && (c == '\t' || c == '\n' || c == '\r') {
+			return false, false
+		}
+		if z, ok := v.(string); ok {
+			for i := 0; i < len(z); i++ {
+				if z[i] == '\t' || z[i] == '\n' || z[i] == '\r' {
+					return false, false
+				}
+			}
+		}
+	}
+	var w vpBuf
+	if s.Write(&w) != nil {
+		return true, false
+	}
+	got := vpCollect(vpOneShot(w.b), 3)
+	return true, len(got) == 1 && !got[0].err && vpSameSAM(got[0].s, s)
 }
